@@ -20,8 +20,16 @@ DUR_ROWS = {"get_hours": "chrono::TimeDelta::num_hours", "get_minutes": "chrono:
 ADJ = "rscel::context::default_funcs::time_funcs::helpers::get_adjusted_datetime"
 
 
-def chrono_calls(b):
-    return {c for c in common.callees_of(b) if c.startswith(("chrono::", "<chrono::"))}
+def chrono_calls(b, F=None):
+    """chrono callees of the function, its closures and module-private helpers (an accessor applied inside `.map(|adjusted| ..)` is the same accessor)"""
+    bodies = common.with_private_callees(F, b) if F is not None else [b]
+    bodies = [x for x in bodies if not x.path.endswith("helpers::get_adjusted_datetime")]
+    return {c for x in bodies for c in common.callees_of(x) if c.startswith(("chrono::", "<chrono::"))}
+
+
+def sub_asserts(b, F):
+    bodies = [x for x in common.with_private_callees(F, b) if not x.path.endswith("helpers::get_adjusted_datetime")]
+    return sum(1 for x in bodies for a in common.asserts_of(x) if a[2] == "Sub")
 
 
 def run(chk, tier):
@@ -39,13 +47,13 @@ def run(chk, tier):
             raise lib.MissingAnchor("accessor %s: expected one UTC and one zoned overload, found %d/%d" % (mod, len(utc), len(zoned)))
         u, z = utc[0], zoned[0]
         n += 2
-        cu, cz = chrono_calls(u), chrono_calls(z)
-        su = sum(1 for a in common.asserts_of(u) if a[2] == "Sub"); sz = sum(1 for a in common.asserts_of(z) if a[2] == "Sub")
+        cu, cz = chrono_calls(u, F), chrono_calls(z, F)
+        su, sz = sub_asserts(u, F), sub_asserts(z, F)
         if cu == want and su == subs:
             chk.ok("R16.2", mod, why)
         else:
             chk.bad("R16.2", mod, "%s (UTC form) uses %s with %d subtraction(s); documented base needs %s with %d" % (mod, sorted(map(lib.short, cu)), su, sorted(map(lib.short, want)), subs), u.file)
-        uses_adj = any(c == ADJ for c in common.callees_of(z))
+        uses_adj = any(c == ADJ for x in common.with_private_callees(F, z) if not x.path.endswith("helpers::get_adjusted_datetime") for c in common.callees_of(x))
         if cz == cu and sz == su and uses_adj:
             chk.ok("R16.1", mod, {"utc": sorted(map(lib.short, cu)), "zoned": "get_adjusted_datetime + same"})
         else:
@@ -55,7 +63,7 @@ def run(chk, tier):
         bs = [b for b in F.find(r"time_funcs::%s::methods::%s_\w+$" % (mod, mod), "rscel") if b.local_ty(1).startswith("chrono::TimeDelta")]
         if len(bs) != 1:
             raise lib.MissingAnchor("duration accessor %s" % mod)
-        if chrono_calls(bs[0]) == {want}:
+        if chrono_calls(bs[0], F) == {want}:
             chk.ok("R16.2", mod + "|duration", want)
         else:
             chk.bad("R16.2", mod + "|duration", "duration form of %s uses %s, expected %s" % (mod, sorted(chrono_calls(bs[0])), want), bs[0].file)
@@ -82,19 +90,22 @@ def run(chk, tier):
     if not bad:
         chk.ok("R16.3", "no panicking chrono operator/constructor in rscel")
     adj = F.body(ADJ)
-    cal = common.callees_g(adj)
+    cal = {}
+    for x in common.with_private_callees(F, adj):
+        cal.update(common.callees_g(x))
     if any(re.search(r"str>::parse<chrono_tz::\w+::Tz>|Tz as std::str::FromStr>::from_str", c) for c in cal) and any("with_timezone" in c for c in cal):
         chk.ok("R16.4", "get_adjusted_datetime")
     else:
         chk.bad("R16.4", "get_adjusted_datetime", "zone lookup / conversion changed: %s" % [lib.short(c) for c in cal][:6], adj.file)
     # ---- R16.4b the adjusted date-time is the SAME instant in the named zone: with_timezone(this, parsed zone) and nothing else
     import mirq
-    ex = mirq.call_exprs(mirq.BodyQ(adj), drop=None)
+    ex = [common.payload_blind(e) for e in common.normal_row(F, adj, lambda e: False)["calls"]]
     wt = [e for e in ex if e.startswith("DateTime::with_timezone(")]
-    if wt == ["DateTime::with_timezone(p1, FromStr::from_str<Tz>(p2).Ok.0)"] and not [e for e in ex if re.search(r"offset_from|FixedOffset|date_naive|and_hms|midnight|naive_utc", e)]:
+    if wt == ["DateTime::with_timezone(p1, _)"] and any(re.match(r"^(FromStr::from_str<Tz>|str::parse<Tz>)\(p2\)$", e) for e in ex) \
+            and not [e for e in ex if re.search(r"offset_from|FixedOffset|date_naive|and_hms|midnight|naive_utc", e)]:
         chk.ok("R16.4", "get_adjusted_datetime|same instant, named zone", wt[0])
     else:
-        chk.bad("R16.4", "get_adjusted_datetime|same instant, named zone", "the zoned accessors must read the civil fields of the instant itself in the named zone (this.with_timezone(zone)); found %s" % [e[:90] for e in ex][:6], adj.file)
+        chk.bad("R16.4", "get_adjusted_datetime|same instant, named zone", "the zoned accessors must read the civil fields of the instant itself in the named zone (this.with_timezone(parsed zone)); found %s" % [e[:90] for e in ex][:6], adj.file)
     # ---- R16.5 unit tables: into_<quantity> and from_<quantity> use the same uom unit per variant (identity / invertibility need it)
     chk.rule("R16.5", "unit tables: for every unit variant, the constructor into_<q> and the reader from_<q> name the same uom unit; every variant is listed")
     chk.rule("R16.6", "uomConvert parses BOTH unit names before it can succeed, converts only within one quantity, and fails otherwise")
